@@ -49,7 +49,7 @@ func schedTrigger(hist []Op) string {
 
 func evalSched(sc schedCase) (viol []Violation, evals int64) {
 	rep := func(sig, detail string) {
-		viol = append(viol, Violation{Prop: "C15", Sig: sig + schedTrigger(sc.Hist), Detail: detail, Case: mkCase("sched", sc)})
+		viol = append(viol, Violation{Prop: "C15", Sig: sig + schedTrigger(sc.Hist), Detail: detail, Case: mkCase("sched", sc), CaseID: fmt.Sprintf("%s m=%d", histStr(sc.Hist), sc.Mem)})
 	}
 	created := map[int]int{}
 	deleted := map[int]int{}
